@@ -10,8 +10,14 @@ Close Scope N_scope.
 
 Inductive xleaf := XS (lx : text) | XI (lx : text) | XF (lx : text) | XW (lx : text).     (* STRING, INT, FLOAT, ID lexemes *)
 Definition lk (a : xleaf) : kl := match a with XS l => (KSTRING, l) | XI l => (KINT, l) | XF l => (KFLOAT, l) | XW l => (KID, l) end.
-Inductive xval := XLeaf (a : xleaf) | XList (l : list xval) (trail : bool).
-Inductive xarg := XAVal (v : xval) | XADict (first : text * xleaf) (more : list (text * xleaf)) (trail : bool).   (* keys: STRING lexemes *)
+(* a word of unquoted text: an INT / FLOAT / ID / PLAIN_STRING lexeme; a FLOAT word carries the text str(float(lexeme)) it is re-printed as *)
+Inductive xword := WI (lx : text) | WF (lx printed : text) | WW (lx : text) | WP (lx : text).
+Definition wk (w : xword) : kl := match w with WI l => (KINT, l) | WF l _ => (KFLOAT, l) | WW l => (KID, l) | WP l => (KPLAIN, l) end.
+Inductive xval := XLeaf (a : xleaf) | XList (l : list xval) (trail : bool) | XWords (ws : list xword).   (* XWords: unquoted text of several tokens *)
+Inductive xkey := KQ (lx : text) | KW (ws : list xword).          (* a quoted key (STRING lexeme) / an unquoted key *)
+Inductive xpv := PVLeaf (a : xleaf) | PVWords (ws : list xword).   (* the value of a pair: one token or unquoted text *)
+Definition xpair := (xkey * xpv)%type.
+Inductive xarg := XAVal (v : xval) | XADict (first : xpair) (more : list xpair) (trail : bool).
 Record xcmd := { xc_result : option text; xc_name : text; xc_args : list (text * xarg); xc_trail : bool }.   (* no result name: the EEMS 2.0 form *)
 
 (* tokens *)
@@ -21,8 +27,11 @@ Fixpoint tkx_value (v : xval) : list kl :=
   match v with
   | XLeaf a => [lk a]
   | XList l tr => lbt :: tkj tr (map tkx_value l) ++ [rbt]
+  | XWords ws => map wk ws
   end.
-Definition tkx_pair (p : text * xleaf) : list kl := [(KSTRING, fst p); colon; lk (snd p)].
+Definition tk_key (k : xkey) : list kl := match k with KQ lx => [(KSTRING, lx)] | KW ws => map wk ws end.
+Definition tk_pv (v : xpv) : list kl := match v with PVLeaf a => [lk a] | PVWords ws => map wk ws end.
+Definition tkx_pair (p : xpair) : list kl := tk_key (fst p) ++ colon :: tk_pv (snd p).
 Definition tkx_arg (a : text * xarg) : list kl :=
   (KID, fst a) :: eqt ::
   match snd a with
@@ -45,13 +54,22 @@ Definition lden (a : xleaf) : pval :=
   | XS lx => PStr (match sden lx with Some s => s | None => [] end)
   | XI lx => PInt (int_of_lexeme lx) | XF lx => PFloat lx | XW lx => PStr lx
   end.
+(* unquoted text denotes the concatenation of its words, numerals re-printed (the blanks between the words are lost) *)
+Definition wpiece (w : xword) : text := match w with WI lx => str_of_Z (int_of_lexeme lx) | WF _ pr => pr | WW lx => lx | WP lx => lx end.
+Fixpoint wtext (ws : list xword) : text := match ws with [] => [] | w :: t => wpiece w ++ wtext t end.
 Fixpoint xden (v : xval) : pval :=
-  match v with XLeaf a => lden a | XList l _ => PList (map (fun x => PE (xden x) 0%N) l) end.
+  match v with XLeaf a => lden a | XList l _ => PList (map (fun x => PE (xden x) 0%N) l) | XWords ws => PStr (wtext ws) end.
 Definition leaf_ok (a : xleaf) : bool := match a with XS lx => match sden lx with Some _ => true | None => false end | _ => true end.
-Fixpoint xval_ok (v : xval) : bool := match v with XLeaf a => leaf_ok a | XList l _ => forallb xval_ok l end.
+(* well-formed unquoted text: at least one word, the last one an identifier or a PLAIN_STRING (what the plain_string
+   productions require); float words carry what the oracle prints for them *)
+Definition last_word_ok (ws : list xword) : bool := match last ws (WI []) with WW _ | WP _ => true | _ => false end.
+Definition word_fs_ok (fs : text -> option text) (w : xword) : bool :=
+  match w with WF lx pr => match fs lx with Some x => if list_eq_dec N.eq_dec x pr then true else false | None => false end | _ => true end.
+Fixpoint xval_ok (fs : text -> option text) (v : xval) : bool :=
+  match v with XLeaf a => leaf_ok a | XList l _ => forallb (xval_ok fs) l | XWords ws => last_word_ok ws && forallb (word_fs_ok fs) ws end.
 
-Lemma xval_ind' (Pr : xval -> Prop) : (forall a, Pr (XLeaf a)) -> (forall l tr, Forall Pr l -> Pr (XList l tr)) -> forall v, Pr v.
-Proof. intros H1 H2. fix F 1. intros [a|l tr]; [apply H1|]. apply H2. induction l as [|x l IH]; [constructor | constructor; [apply F | exact IH]]. Qed.
+Lemma xval_ind' (Pr : xval -> Prop) : (forall a, Pr (XLeaf a)) -> (forall l tr, Forall Pr l -> Pr (XList l tr)) -> (forall ws, Pr (XWords ws)) -> forall v, Pr v.
+Proof. intros H1 H2 H3. fix F 1. intros [a|l tr|ws]; [apply H1| |apply H3]. apply H2. induction l as [|x l IH]; [constructor | constructor; [apply F | exact IH]]. Qed.
 
 Section LR.
 Variable L : nat -> N.
@@ -59,6 +77,7 @@ Variable P : nat -> nat.
 Variable fs : text -> option text.
 Notation deco := (deco L P).
 Notation mk := (mk L P).
+Notation xval_ok := (xval_ok fs).
 Ltac lr := cbn [run step defaulted hd_error tl LrComplete.mk fst snd t_kind term_of action reduce production firstn skipn length map rev app
                 Nat.ltb Nat.leb goto Nat.add LrComplete.deco tkx_value tk_join tkj ge gl gp ga gc sh gt S_res S_eq S_name S_lp S_an S_val S_lb S_el S_ec S_arg S_ac S_cmd S_tp S_pc Nat.eqb lk].
 Ltac ev := cbn [eval bind first_line leaf_text LrComplete.mk t_kind t_lexeme t_line fst snd lk].
@@ -139,33 +158,167 @@ Proof. intros HF W s i T0 st la rest H. cbn [xval_ok] in W. destruct l as [|v l'
     + ev. rewrite He. reflexivity.
     + cbn [erase_e erase_v xden]. rewrite Hp. reflexivity.
 Qed.
-Theorem xvalue_ok v : xvalue_spec v.
-Proof. induction v as [a|l tr IH] using xval_ind'; [apply xleaf_ok | apply xlist_ok, IH]. Qed.
 
-(* ---- dictionaries: "key": value pairs, values being single tokens ---- *)
-Definition pair_ok (p : text * xleaf) : bool := match sden (fst p) with Some _ => leaf_ok (snd p) | None => false end.
-Definition pden (p : text * xleaf) : text * pexpr := (match sden (fst p) with Some k => k | None => [] end, PE (lden (snd p)) 0%N).
-Fixpoint xdexp (kv : list (text * xleaf)) : list (text * pexpr) :=
+(* ---- unquoted text of several tokens: word word ... word, the last one an identifier or a PLAIN_STRING ---- *)
+Definition W_id : nat := sh S_val T_ID.              (* after an identifier word *)
+Definition W_pl : nat := sh S_val T_PLAIN_STRING.    (* after a PLAIN_STRING word *)
+Definition W_int0 : nat := sh S_val T_INT.           (* after a leading integer *)
+Definition W_fl0 : nat := sh S_val T_FLOAT.          (* after a leading decimal *)
+Definition W_int : nat := sh W_id T_INT.             (* after an integer inside the text *)
+Definition W_fl : nat := sh W_id T_FLOAT.            (* after a decimal inside the text *)
+Definition S_kq : nat := sh S_lb T_STRING.           (* after a quoted key *)
+Definition S_tv : nat := sh S_kq T_COLON.            (* where the value of a pair with a quoted key starts *)
+Definition S_kw : nat := gt S_lb N_plain_string.     (* after an unquoted key *)
+Definition S_tv2 : nat := sh S_kw T_COLON.           (* where the value of a pair with an unquoted key starts *)
+Definition inner (s : nat) : Prop := s = W_id \/ s = W_pl \/ s = W_int0 \/ s = W_fl0 \/ s = W_int \/ s = W_fl.
+Definition la4 (la : token) : Prop := t_kind la = KCOMMA \/ t_kind la = KRPAREN \/ t_kind la = KRBRACK \/ t_kind la = KCOLON.
+(* where unquoted text may start, and what may follow it there *)
+Definition wfollow (s : nat) (la : token) : Prop :=
+  (s = S_val /\ (t_kind la = KCOMMA \/ t_kind la = KRPAREN)) \/
+  ((s = S_lb \/ s = S_ec) /\ (t_kind la = KCOMMA \/ t_kind la = KRBRACK)) \/
+  ((s = S_lb \/ s = S_pc) /\ t_kind la = KCOLON) \/
+  ((s = S_tv \/ s = S_tv2) /\ (t_kind la = KCOMMA \/ t_kind la = KRBRACK)) \/
+  (inner s /\ la4 la).
+Definition wterm (w : xword) : term := match w with WI _ => T_INT | WF _ _ => T_FLOAT | WW _ => T_ID | WP _ => T_PLAIN_STRING end.
+Ltac lrw := cbn [run step defaulted hd_error tl LrComplete.mk fst snd t_kind term_of action reduce production firstn skipn length map rev app
+                 Nat.ltb Nat.leb goto Nat.add LrComplete.deco tkx_value tk_join tkj ge gl gp ga gc sh gt S_res S_eq S_name S_lp S_an S_val S_lb S_el S_ec S_arg S_ac S_cmd S_tp S_pc
+                 W_id W_pl W_int0 W_fl0 W_int W_fl S_kq S_tv S_kw S_tv2 wk wterm Nat.eqb lk].
+Ltac evw := cbn [eval bind first_line leaf_text LrComplete.mk t_kind t_lexeme t_line fst snd lk wk].
+Ltac in_cases Hi := destruct Hi as [->|[->|[->|[->|[->| ->]]]]].
+Ltac wf_cases H := destruct H as [[-> [H|H]]|[[[->| ->] [H|H]]|[[[->| ->] H]|[[[->| ->] [H|H]]|[Hi [H|[H|[H|H]]]]]]]]; [| | | | | | | | | | | | in_cases Hi | in_cases Hi | in_cases Hi | in_cases Hi].
+Lemma wfollow_la s la : wfollow s la -> la4 la.
+Proof. unfold wfollow, la4. tauto. Qed.
+Lemma wfollow_inner s w la : wfollow s la -> inner (sh s (wterm w)).
+Proof. intros H. unfold inner. wf_cases H; destruct w; cbn; tauto. Qed.
+Lemma words_ok : forall ws, last_word_ok ws = true -> forallb (word_fs_ok fs) ws = true ->
+  forall s i T0 st la rest, wfollow s la ->
+  exists n T, (n <= 3 * length ws)%nat /\
+    reaches ((s, T0) :: st) (deco i (map wk ws) ++ la :: rest) ((gt s N_plain_string, T) :: (s, T0) :: st) (la :: rest) n /\
+    eval fs T = SOk (SText (wtext ws)).
+Proof. induction ws as [|w ws IH]; [discriminate|]. intros Hl Hf s i T0 st la rest Hw. cbn [forallb] in Hf. apply andb_true_iff in Hf as [F1 F2].
+  destruct ws as [|w2 ws'].
+  - (* the last word *)
+    unfold last_word_ok in Hl. cbn [last] in Hl. destruct w as [lx|lx pr|lx|lx]; try discriminate; cbn [map LrComplete.deco app wtext wpiece]; rewrite app_nil_r.
+    + exists 2%nat. eexists. split; [cbn; lia|]. split.
+      { intros f. wf_cases Hw; repeat (progress (lrw; rewrite ?Hw)); reflexivity. }
+      evw. reflexivity.
+    + exists 2%nat. eexists. split; [cbn; lia|]. split.
+      { intros f. wf_cases Hw; repeat (progress (lrw; rewrite ?Hw)); reflexivity. }
+      evw. reflexivity.
+  - (* a word followed by more words *)
+    assert (Hl' : last_word_ok (w2 :: ws') = true) by (unfold last_word_ok in *; cbn [last] in *; exact Hl).
+    cbn [map LrComplete.deco app]. set (tw := mk i (wk w)).
+    assert (WS : wfollow (sh s (wterm w)) la) by (right; right; right; right; split; [eapply wfollow_inner; exact Hw | eapply wfollow_la; exact Hw]).
+    destruct (IH Hl' F2 (sh s (wterm w)) (S i) (Leaf tw) ((s, T0) :: st) la rest WS) as (n & T & Hn & Hr & He).
+    exists (1 + n + 1)%nat, (Br F_p_plain_string_with_number [Leaf tw; T]). split; [cbn [length] in *; lia|]. split.
+    + eapply reaches_trans; [eapply reaches_trans; [|exact Hr]|].
+      * intros f. unfold tw. wf_cases Hw; destruct w; repeat (progress lrw); reflexivity.
+      * intros f. unfold tw. wf_cases Hw; destruct w; repeat (progress (lrw; rewrite ?Hw)); reflexivity.
+    + unfold tw. destruct w as [lx|lx pr|lx|lx]; evw; rewrite He; cbn [wk fst snd t_kind LrComplete.mk wtext wpiece]; try reflexivity.
+      cbn [word_fs_ok] in F1. destruct (fs lx) as [x|]; [|discriminate]. destruct (list_eq_dec N.eq_dec x pr) as [->|]; [reflexivity | discriminate].
+Qed.
+Lemma xwords_ok ws : xvalue_spec (XWords ws).
+Proof. intros W s i T0 st la rest H. cbn [Surface.xval_ok] in W. apply andb_true_iff in W as [W1 W2].
+  assert (Hw : wfollow s la) by (unfold wfollow; destruct H as [[-> A]|[B A]]; tauto).
+  destruct (words_ok ws W1 W2 s i T0 st la rest Hw) as (n & T & Hn & Hr & He).
+  exists (n + 2)%nat, (Br F_p_expression [Br F_p_permissive_plain_string [T]]), (PE (PStr (wtext ws)) (first_line T)). split; [|split; [|split]].
+  - cbn [tkx_value]. rewrite map_length. destruct ws; [discriminate|]. cbn [length] in *. lia.
+  - cbn [tkx_value]. eapply reaches_trans; [exact Hr|]. intros f.
+    destruct H as [[-> [A|A]]|[[->| ->] [A|A]]]; repeat (progress (lrw; rewrite ?A)); reflexivity.
+  - evw. rewrite He. reflexivity.
+  - reflexivity.
+Qed.
+Theorem xvalue_ok v : xvalue_spec v.
+Proof. induction v as [a|l tr IH|ws] using xval_ind'; [apply xleaf_ok | apply xlist_ok, IH | apply xwords_ok]. Qed.
+
+(* ---- dictionaries: key: value pairs; a key is a quoted string or unquoted text, a value one token or unquoted text ---- *)
+Definition words_valid (ws : list xword) : bool := last_word_ok ws && forallb (word_fs_ok fs) ws.
+Definition key_ok (k : xkey) : bool := match k with KQ lx => match sden lx with Some _ => true | None => false end | KW ws => words_valid ws end.
+Definition pv_ok (v : xpv) : bool := match v with PVLeaf a => leaf_ok a | PVWords ws => words_valid ws end.
+Definition pair_ok (p : xpair) : bool := key_ok (fst p) && pv_ok (snd p).
+Definition kden (k : xkey) : text := match k with KQ lx => match sden lx with Some t => t | None => [] end | KW ws => wtext ws end.
+Definition pvden (v : xpv) : pval := match v with PVLeaf a => lden a | PVWords ws => PStr (wtext ws) end.
+Definition pden (p : xpair) : text * pexpr := (kden (fst p), PE (pvden (snd p)) 0%N).
+Fixpoint xdexp (kv : list xpair) : list (text * pexpr) :=
   match kv with
   | [] => []
   | p :: t => match t with [] => [pden p] | _ => dict_set (xdexp t) (fst (pden p)) (snd (pden p)) end
   end.
+(* the value of a pair, started in S_tv / S_tv2, followed by `,` or `]` *)
+Definition pvsem (v : xpv) : sem :=
+  match v with
+  | PVLeaf (XS lx) => SText (match sden lx with Some t => t | None => [] end)
+  | PVLeaf (XI lx) => SNum (PInt (int_of_lexeme lx)) | PVLeaf (XF lx) => SNum (PFloat lx) | PVLeaf (XW lx) => SText lx
+  | PVWords ws => SText (wtext ws)
+  end.
+Lemma xpv_ok v : pv_ok v = true -> forall b i T0 st la rest, b = S_tv \/ b = S_tv2 -> t_kind la = KCOMMA \/ t_kind la = KRBRACK ->
+  exists n T, (n <= 6 * length (tk_pv v))%nat /\
+    reaches ((b, T0) :: st) (deco i (tk_pv v) ++ la :: rest) ((gt b N_tuple_value, T) :: (b, T0) :: st) (la :: rest) n /\
+    eval fs T = SOk (pvsem v).
+Proof. intros W b i T0 st la rest Hb H. destruct v as [a|ws]; cbn [pv_ok tk_pv] in *.
+  - destruct a as [lx|lx|lx|lx]; cbn [leaf_ok] in W; cbn [LrComplete.deco app lk].
+    + unfold sden in W. destruct (string_value lx) as [sv| |] eqn:EV; try discriminate. exists 2%nat. eexists. split; [cbn; lia|]. split.
+      { intros f. destruct Hb as [-> | ->]; destruct H as [H|H]; repeat (progress (lrw; rewrite ?H)); reflexivity. }
+      evw. rewrite EV. cbn [pvsem]. unfold sden. rewrite EV. reflexivity.
+    + exists 3%nat. eexists. split; [cbn; lia|]. split.
+      { intros f. destruct Hb as [-> | ->]; destruct H as [H|H]; repeat (progress (lrw; rewrite ?H)); reflexivity. }
+      evw. reflexivity.
+    + exists 3%nat. eexists. split; [cbn; lia|]. split.
+      { intros f. destruct Hb as [-> | ->]; destruct H as [H|H]; repeat (progress (lrw; rewrite ?H)); reflexivity. }
+      evw. reflexivity.
+    + exists 4%nat. eexists. split; [cbn; lia|]. split.
+      { intros f. destruct Hb as [-> | ->]; destruct H as [H|H]; repeat (progress (lrw; rewrite ?H)); reflexivity. }
+      evw. reflexivity.
+  - unfold words_valid in W. apply andb_true_iff in W as [W1 W2].
+    assert (Hw : wfollow b la) by (unfold wfollow; tauto).
+    destruct (words_ok ws W1 W2 b i T0 st la rest Hw) as (n & T & Hn & Hr & He).
+    exists (n + 2)%nat, (Br F_p_tuple_value [Br F_p_permissive_plain_string [T]]). split; [|split].
+    + rewrite map_length. destruct ws; [discriminate|]. cbn [length] in *. lia.
+    + eapply reaches_trans; [exact Hr|]. intros f. destruct Hb as [-> | ->]; destruct H as [H|H]; repeat (progress (lrw; rewrite ?H)); reflexivity.
+    + evw. rewrite He. reflexivity.
+Qed.
+Lemma pvsem_pair v ks l : exists e, (match pvsem v with SText x => SOk (SPair ks (PE (PStr x) l)) | SNum n => SOk (SPair ks (PE n l)) | _ => SUnsupported end) = SOk (SPair ks e)
+  /\ erase_e e = PE (pvden v) 0%N.
+Proof. destruct v as [[lx|lx|lx|lx]|ws]; cbn [pvsem pvden lden]; eexists; split; reflexivity. Qed.
+Lemma eval_pair_nonleaf f kids c T : eval fs (Br F_p_tuple_pair [Br f kids; c; T]) =
+  bind (eval fs (Br f kids)) (fun sk => bind (eval fs T) (fun sv => match sk, sv with
+    | SText ks, SText x => SOk (SPair ks (PE (PStr x) (first_line (Br f kids))))
+    | SText ks, SNum n => SOk (SPair ks (PE n (first_line (Br f kids))))
+    | _, _ => SUnsupported end)).
+Proof. reflexivity. Qed.
 Lemma xpair_ok p : pair_ok p = true -> forall s i T0 st la rest, s = S_lb \/ s = S_pc -> t_kind la = KCOMMA \/ t_kind la = KRBRACK ->
-  exists n T e, (n <= 9)%nat /\
+  exists n T e, (n + 4 <= 10 * length (tkx_pair p))%nat /\
     reaches ((s, T0) :: st) (deco i (tkx_pair p) ++ la :: rest) ((S_tp, T) :: (s, T0) :: st) (la :: rest) n /\
     eval fs T = SOk (SPair (fst (pden p)) e) /\ erase_e e = snd (pden p).
-Proof. unfold pair_ok, pden. destruct p as [key val]. cbn [fst snd]. unfold sden at 1 2. destruct (string_value key) as [ks| |] eqn:EK; try discriminate.
-  intros W s i T0 st la rest Hs H. unfold tkx_pair, colon. cbn [fst snd].
-  destruct val as [lx|lx|lx|lx]; cbn [leaf_ok] in W.
-  - unfold sden in W. destruct (string_value lx) as [sv| |] eqn:EV; try discriminate. exists 5%nat.
-    destruct Hs as [-> | ->]; destruct H as [H|H];
-    (eexists; eexists; split; [lia | split; [intros f; repeat (progress (lr; rewrite ?H)); reflexivity | split; [ev; rewrite EK, EV; ev; reflexivity | cbn [erase_e erase_v lden]; unfold sden; rewrite EV; reflexivity]]]).
-  - exists 6%nat. destruct Hs as [-> | ->]; destruct H as [H|H];
-    (eexists; eexists; split; [lia | split; [intros f; repeat (progress (lr; rewrite ?H)); reflexivity | split; [ev; rewrite EK; ev; reflexivity | reflexivity]]]).
-  - exists 6%nat. destruct Hs as [-> | ->]; destruct H as [H|H];
-    (eexists; eexists; split; [lia | split; [intros f; repeat (progress (lr; rewrite ?H)); reflexivity | split; [ev; rewrite EK; ev; reflexivity | reflexivity]]]).
-  - exists 7%nat. destruct Hs as [-> | ->]; destruct H as [H|H];
-    (eexists; eexists; split; [lia | split; [intros f; repeat (progress (lr; rewrite ?H)); reflexivity | split; [ev; rewrite EK; ev; reflexivity | reflexivity]]]).
+Proof. unfold pair_ok, pden, tkx_pair. destruct p as [key val]. cbn [fst snd]. intros W s i T0 st la rest Hs H. apply andb_true_iff in W as [WK WV].
+  destruct key as [lx|ws]; cbn [key_ok tk_key kden] in *.
+  - (* "key": value *)
+    unfold sden in WK |- *. destruct (string_value lx) as [ks| |] eqn:EK; try discriminate.
+    cbn [app LrComplete.deco]. set (k := mk i (KSTRING, lx)). set (c := mk (S i) colon).
+    destruct (xpv_ok val WV S_tv (S (S i)) (Leaf c) ((sh s T_STRING, Leaf k) :: (s, T0) :: st) la rest (or_introl eq_refl) H) as (n & T & Hn & Hr & He).
+    destruct (pvsem_pair val ks (L i)) as (e & E1 & E2).
+    exists (2 + n + 1)%nat, (Br F_p_tuple_pair [Leaf k; Leaf c; T]), e. split; [cbn [length]; destruct (tk_pv val); cbn [length] in *; lia|]. split; [|split].
+    + eapply reaches_trans; [eapply reaches_trans; [|exact Hr]|].
+      * intros f. unfold k, c, colon. destruct Hs as [-> | ->]; repeat (progress lrw); reflexivity.
+      * intros f. destruct Hs as [-> | ->]; destruct H as [H|H]; repeat (progress (lrw; rewrite ?H)); reflexivity.
+    + unfold k. evw. rewrite EK. evw. rewrite He. exact E1.
+    + exact E2.
+  - (* key: value, the key unquoted *)
+    unfold words_valid in WK. apply andb_true_iff in WK as [W1 W2].
+    rewrite deco_app. rewrite <- app_assoc. cbn [app LrComplete.deco]. rewrite map_length.
+    set (c := mk (length ws + i) colon).
+    assert (Hw : wfollow s (mk (length ws + i) colon)) by (unfold wfollow; right; right; left; split; [exact Hs | reflexivity]).
+    destruct (words_ok ws W1 W2 s i T0 st c (deco (S (length ws + i)) (tk_pv val) ++ la :: rest) Hw) as (nk & Tk & Hnk & Hrk & Hek).
+    destruct (xpv_ok val WV S_tv2 (S (length ws + i)) (Leaf c) ((gt s N_plain_string, Tk) :: (s, T0) :: st) la rest (or_intror eq_refl) H) as (n & T & Hn & Hr & He).
+    destruct (pvsem_pair val (wtext ws) (first_line Tk)) as (e & E1 & E2).
+    exists (nk + 1 + n + 1)%nat, (Br F_p_tuple_pair [Tk; Leaf c; T]), e. split; [|split; [|split]].
+    + rewrite app_length, map_length. cbn [length]. destruct ws; [discriminate|]. cbn [length] in *. lia.
+    + eapply reaches_trans; [eapply reaches_trans; [eapply reaches_trans; [exact Hrk|] | exact Hr]|].
+      * intros f. unfold c, colon. destruct Hs as [-> | ->]; repeat (progress lrw); reflexivity.
+      * intros f. destruct Hs as [-> | ->]; destruct H as [H|H]; repeat (progress (lrw; rewrite ?H)); reflexivity.
+    + destruct Tk as [tk|f kids]; [exfalso; cbn [eval] in Hek; discriminate|].
+      rewrite eval_pair_nonleaf, Hek, He. cbn [bind]. exact E1.
+    + exact E2.
 Qed.
 Lemma xpairs_ok : forall kv tr, kv <> [] -> forallb pair_ok kv = true ->
   forall s i T0 st rb rest, s = S_lb \/ s = S_pc -> t_kind rb = KRBRACK ->
@@ -174,28 +327,29 @@ Lemma xpairs_ok : forall kv tr, kv <> [] -> forallb pair_ok kv = true ->
     eval fs T = SOk (SDict d) /\ map er d = xdexp kv.
 Proof. induction kv as [|p kv IH]; [congruence|]. intros tr _ W s i T0 st rb rest Hs Hrb. cbn [forallb] in W. apply andb_true_iff in W as [W1 W2]. destruct kv as [|p2 kv'].
   - unfold tkj. cbn [map tk_join]. destruct tr.
-    + rewrite deco_app. change (length (tkx_pair p)) with 3%nat. cbn [LrComplete.deco]. rewrite <- app_assoc. cbn [app]. set (c := mk (3 + i) comma).
+    + rewrite deco_app. cbn [LrComplete.deco]. rewrite <- app_assoc. cbn [app]. set (c := mk (length (tkx_pair p) + i) comma).
       destruct (xpair_ok p W1 s i T0 st c (rb :: rest) Hs (or_introl eq_refl)) as (n & T & e & Hn & Hr & He & Hp).
-      exists (n + 2)%nat, (Br F_p_tuple_pairs_pair [T; Leaf c]), [(fst (pden p), e)]. split; [rewrite app_length; cbn [length]; change (length (tkx_pair p)) with 3%nat; lia|]. split; [|split].
+      exists (n + 2)%nat, (Br F_p_tuple_pairs_pair [T; Leaf c]), [(fst (pden p), e)]. split; [rewrite app_length; cbn [length]; lia|]. split; [|split].
       * eapply reaches_trans; [exact Hr|]. intros f. unfold c, comma. destruct Hs as [-> | ->]; cbn [gp Nat.eqb]; repeat (progress (lr; rewrite ?Hrb)); reflexivity.
       * ev. rewrite He. reflexivity.
       * unfold er. cbn [map fst snd xdexp]. rewrite Hp. destruct (pden p); reflexivity.
     + rewrite app_nil_r.
       destruct (xpair_ok p W1 s i T0 st rb rest Hs (or_intror Hrb)) as (n & T & e & Hn & Hr & He & Hp).
-      exists (n + 1)%nat, (Br F_p_tuple_pairs_pair [T]), [(fst (pden p), e)]. split; [change (length (tkx_pair p)) with 3%nat; lia|]. split; [|split].
+      exists (n + 1)%nat, (Br F_p_tuple_pairs_pair [T]), [(fst (pden p), e)]. split; [|split; [|split]].
+      * lia.
       * eapply reaches_trans; [exact Hr|]. intros f. destruct Hs as [-> | ->]; cbn [gp Nat.eqb]; repeat (progress (lr; rewrite ?Hrb)); reflexivity.
       * ev. rewrite He. reflexivity.
       * unfold er. cbn [map fst snd xdexp]. rewrite Hp. destruct (pden p); reflexivity.
   - assert (E : tkj tr (map tkx_pair (p :: p2 :: kv')) = tkx_pair p ++ comma :: tkj tr (map tkx_pair (p2 :: kv'))).
     { unfold tkj. cbn [map tk_join]. rewrite <- app_assoc. reflexivity. }
     rewrite E. set (tj := tkj tr (map tkx_pair (p2 :: kv'))) in *.
-    rewrite deco_app. change (length (tkx_pair p)) with 3%nat. cbn [LrComplete.deco]. rewrite <- app_assoc. cbn [app].
-    set (c := mk (3 + i) comma).
-    destruct (xpair_ok p W1 s i T0 st c (deco (S (3 + i)) tj ++ rb :: rest) Hs (or_introl eq_refl)) as (n & T & e & Hn & Hr & He & Hp).
-    destruct (IH tr ltac:(discriminate) W2 S_pc (S (3 + i)) (Leaf c) ((S_tp, T) :: (s, T0) :: st) rb rest (or_intror eq_refl) Hrb)
+    rewrite deco_app. cbn [LrComplete.deco]. rewrite <- app_assoc. cbn [app].
+    set (c := mk (length (tkx_pair p) + i) comma).
+    destruct (xpair_ok p W1 s i T0 st c (deco (S (length (tkx_pair p) + i)) tj ++ rb :: rest) Hs (or_introl eq_refl)) as (n & T & e & Hn & Hr & He & Hp).
+    destruct (IH tr ltac:(discriminate) W2 S_pc (S (length (tkx_pair p) + i)) (Leaf c) ((S_tp, T) :: (s, T0) :: st) rb rest (or_intror eq_refl) Hrb)
       as (n2 & T2 & d & Hn2 & Hr2 & He2 & Hp2).
     exists (n + 1 + n2 + 1)%nat, (Br F_p_tuple_pairs [T; Leaf c; T2]), (dict_set d (fst (pden p)) e). split; [|split; [|split]].
-    + rewrite app_length. change (length (tkx_pair p)) with 3%nat. cbn [length]. fold tj in Hn2. lia.
+    + rewrite app_length. cbn [length]. fold tj in Hn2. lia.
     + eapply reaches_trans; [eapply reaches_trans; [eapply reaches_trans; [exact Hr|] | exact Hr2]|].
       * intros f. unfold c, comma. repeat (progress lr). reflexivity.
       * intros f. destruct Hs as [-> | ->]; cbn [gp Nat.eqb]; repeat (progress lr); reflexivity.
